@@ -92,6 +92,13 @@ pub fn run_sequential(case: &Case) -> RunOutput {
         for op in &case.setup {
             h.step(op).await;
         }
+        if case.journal_fault_rate > 0.0 {
+            let mut fs = w.sim.inner.fs.borrow_mut();
+            fs.random_rate = case.journal_fault_rate;
+            fs.random_classes = vec![crate::rt::PathClass::StateLog];
+            fs.armed = true;
+            h.journal_faults = true;
+        }
         if case.disk_fault_rate > 0.0 {
             let mut fs = w.sim.inner.fs.borrow_mut();
             fs.random_rate = case.disk_fault_rate;
@@ -108,6 +115,7 @@ pub fn run_sequential(case: &Case) -> RunOutput {
                 recorded.push(op.clone());
                 h.step(&op).await;
             }
+            w.sim.arm_faults(false);
             for op in crate::profiles::closing_ops(&case.prop) {
                 if h.fatal {
                     break;
